@@ -310,13 +310,13 @@ def _format_default_value(
     if not input_value.has_default_value:
         return None
     dv = input_value.default_value
-    if isinstance(dv, bool):
+    # Enum values are reported by name whatever their python value is.
+    is_enum = isinstance(unwrap_type(input_value.type), EnumType)
+    if isinstance(dv, bool) and not is_enum:
         return str(dv).lower()
     elif dv is None:
         return "null"
-    elif isinstance(dv, str) and not isinstance(
-        unwrap_type(input_value.type), EnumType
-    ):
+    elif isinstance(dv, str) and not is_enum:
         return '"%s"' % (
             dv.replace("\\", "\\\\")
             .replace('"', '\\"')
